@@ -143,15 +143,21 @@ func (c *StringScanner) PeekColumn() int {
 // Unread puts the specified character to the top of the stream.
 func (c *StringScanner) Unread() {
 	// Skip if we are at the beginning
-	if c.position < -1 {
+	if c.position < 0 {
 		return
 	}
 
 	// Update the current position
+	unreadChar := c.charAt(c.position)
 	c.position--
 
+	// Unreading the end of the stream does not change line and columns
+	if unreadChar == -1 {
+		return
+	}
+
 	// Update line and columns (optimization)
-	if c.column > 0 {
+	if c.isColumn(unreadChar) {
 		c.column--
 		return
 	}
